@@ -46,6 +46,59 @@ var registry = map[string]*Prop{}
 
 func register(p *Prop) { registry[p.ID] = p }
 
+// Extension adds centrally maintained rules (lockset, determinism, aliasing,
+// generated-code agreement) to a property registered elsewhere.
+type Extension struct {
+	Run         func(c *Ctx)
+	Explanation string
+	Floor       map[string]int
+	Patterns    []string
+}
+
+var extensions = map[string][]Extension{}
+
+func extend(id string, e Extension) { extensions[id] = append(extensions[id], e) }
+
+// applyExtensions folds the extensions into the registered properties; called
+// once at the start of main, after every init has run.
+func applyExtensions() {
+	for id, exts := range extensions {
+		p := registry[id]
+		if p == nil {
+			continue
+		}
+		base := p.Run
+		runs := []func(*Ctx){}
+		for _, e := range exts {
+			runs = append(runs, e.Run)
+			p.Explanation += " " + e.Explanation
+			if p.Floor == nil {
+				p.Floor = map[string]int{}
+			}
+			for k, v := range e.Floor {
+				p.Floor[k] = v
+			}
+			for _, pat := range e.Patterns {
+				have := false
+				for _, q := range p.Patterns {
+					if q == pat {
+						have = true
+					}
+				}
+				if !have {
+					p.Patterns = append(p.Patterns, pat)
+				}
+			}
+		}
+		p.Run = func(c *Ctx) {
+			base(c)
+			for _, r := range runs {
+				r(c)
+			}
+		}
+	}
+}
+
 // Ctx is handed to every rule.
 type Ctx struct {
 	*Program
@@ -151,6 +204,7 @@ func main() {
 	dump := flag.String("dump", "", "debug: load -pkgs and dump the SSA of the function spec")
 	dumpPkgs := flag.String("pkgs", "", "debug: package patterns for -dump (space separated)")
 	flag.Parse()
+	applyExtensions()
 	if *dump != "" {
 		prog := Load(*root, strings.Fields(*dumpPkgs))
 		c := &Ctx{Program: prog, seenKey: map[string]bool{}, fnSeen: map[string]bool{}}
